@@ -221,3 +221,9 @@ func verifAnswerVsScan() {
 	verifrt.Reach(tag+":answer-accepted", err == nil)
 	verifrt.Reach(tag+":answer-refused", err != nil)
 }
+
+// One consumer, real delivery pump, every history of a few events (shared with C03): a message
+// is handed to the consumer at most once while it is held (also with topology-aware consumption,
+// where the channel tries the zone / region / memory queues in turn), and the consumer's
+// outstanding count equals the messages it holds.
+func VerifC02_PumpHistoryExclusive() { verifPumpHistory() }
